@@ -163,3 +163,92 @@ pub fn variants(s: &Shape, out: &mut i64) {
         Shape::C { x } => *out = -*x,
     }
 }
+
+pub mod models;
+
+/// Controls for sa/inline.py: each pair is the same behaviour written in two idioms; after inlining (std models,
+/// closures, private helpers) the analysis must extract the same effects under the same guards from both.
+pub mod inl {
+    use std::collections::HashMap;
+
+    pub struct S {
+        pub map: HashMap<u32, i64>,
+        pub log: Vec<i64>,
+        pub v: i64,
+        pub seen: Option<i64>,
+    }
+
+    impl S {
+        pub fn find_combinator(&self, k: &u32) -> Result<&i64, String> {
+            self.map.get(k).ok_or_else(|| format!("no {k}"))
+        }
+
+        pub fn find_match(&self, k: &u32) -> Result<&i64, String> {
+            match self.map.get(k) {
+                Some(v) => Ok(v),
+                None => Err(format!("no {k}")),
+            }
+        }
+
+        pub fn each_for(&mut self, xs: Vec<i64>) {
+            for x in xs {
+                self.log.push(x);
+            }
+        }
+
+        pub fn each_for_each(&mut self, xs: Vec<i64>) {
+            xs.into_iter().for_each(|x| self.log.push(x));
+        }
+
+        pub fn debit_inline(&mut self, d: i64) -> bool {
+            let n = self.v - d;
+            if n >= 0 {
+                self.v = n;
+                true
+            } else {
+                false
+            }
+        }
+
+        pub fn debit_helper(&mut self, d: i64) -> bool {
+            try_debit(&mut self.v, d)
+        }
+
+        pub fn note_inspect(&mut self, x: Option<i64>) -> Option<i64> {
+            x.inspect(|v| self.log.push(*v))
+        }
+
+        pub fn note_if_let(&mut self, x: Option<i64>) -> Option<i64> {
+            if let Some(v) = &x {
+                self.log.push(*v);
+            }
+            x
+        }
+
+        pub fn newer_combinator(&mut self, t: i64) {
+            if self.seen.as_ref().is_none_or(|s| *s < t) {
+                self.seen = Some(t);
+            }
+        }
+
+        pub fn newer_match(&mut self, t: i64) {
+            let newer = match &self.seen {
+                None => true,
+                Some(s) => t > *s,
+            };
+            if newer {
+                self.seen = Some(t);
+            }
+        }
+    }
+
+    fn try_debit(v: &mut i64, d: i64) -> bool {
+        let n = *v - d;
+        if n >= 0 {
+            *v = n;
+            true
+        } else {
+            false
+        }
+    }
+}
